@@ -1,5 +1,5 @@
 """C30 The inter-thread queue never loses, duplicates or reorders (DESIGN.md 3 H1, 5.8, 6 C30;
-spec/MPMC.tla, MC_MPMC.tla, T_MPMC.tla; harness/src/probe_mpmc.cpp; hook pending/mpmc/hook_mpmc_yield.patch)."""
+spec/MPMC.tla, MC_MPMC.tla, T_MPMC.tla; spec/USpsc.tla, MC_USpsc.tla, MC_USpscSeq.tla, T_USpsc.tla; harness/src/probe_mpmc.cpp; hook pending/mpmc/hook_mpmc_yield.patch)."""
 import json
 import os
 import random
@@ -13,9 +13,9 @@ import tlc
 PROBES = [("probe_mpmc", "asan", [], []), ("probe_mpmc", "tsan", [], []), ("probe_mpmc", "plain", [], [])]
 
 MANIFEST = dict(
-    text='TLC checks the ticket/sequence-word protocol of uMPMC_Ptr_Queue (every atomic step of push and pop, 2 sub-queues, 2 producers x 2 pushes, 2 consumers x 3 pops, all interleavings) for exactly-once, reservation order and the empty clause; TLC-generated schedules (every edge of the state graph of a smaller configuration, plus simulated behaviours of a larger one) are executed step by step on the real queue through FIX8_VERIF yield points with all other threads parked, and TLC validates every recorded step (property monitor on counters and returned elements; design conformance of each step with the spec action); free-running runs with 2-16 threads (ASan, TSan and plain builds) are judged by the same TLA+ monitor on their pop logs.',
+    text='TLC checks the ticket/sequence-word protocol of uMPMC_Ptr_Queue (every atomic step of push and pop, 2 sub-queues, 2 producers x 2 pushes, 2 consumers x 3 pops, all interleavings) for exactly-once, reservation order and the empty clause; TLC-generated schedules (every edge of the state graph of a smaller configuration, plus simulated behaviours of a larger one) are executed step by step on the real queue through FIX8_VERIF yield points with all other threads parked, and TLC validates every recorded step (property monitor on counters and returned elements; design conformance of each step with the spec action); free-running runs with 2-16 threads (ASan, TSan and plain builds) are judged by the same TLA+ monitor on their pop logs. The sub-queue that the protocol spec takes as an atomic FIFO (uSWSR_Ptr_Buffer: bounded rings chained through a pool with a cache of released rings) has its own access-grain spec (USpsc.tla: Fifo, pop-fails-only-when-empty, no element in a released ring, rings in one place only, progress under fairness; three named deviations must violate); TLC exports one call sequence per edge of its call-grain state graph, the real class is driven along them with rings of 2-3 slots, along backlogs that overflow the ring cache and by two free threads, and T_USpsc.tla judges every call.',
     note='Trusts TLC, the probe (scheduler and logging only), the friend accessor reading the private counters, ASan/UBSan. Sequentially consistent atomics assumed in the model; weak-memory effects are only sampled by the free-running runs on x86. Free-running logs carry no common clock, so cross-consumer order and empties that overlap a push are decided by the controlled executions only. TSan reports are counted, not judged (the queue uses volatile words as atomics).',
-    tech='TLA+ protocol spec + TLC exhaustive check; edge-cover and simulated schedules replayed on the real queue under controlled scheduling (hook H1); TLC trace validation; free-running stress judged by the TLA+ monitor',
+    tech='TLA+ protocol spec + TLC exhaustive check; edge-cover and simulated schedules replayed on the real queue under controlled scheduling (hook H1); TLC trace validation; free-running stress judged by the TLA+ monitor; access-grain TLA+ spec of the sub-queue, TLC-exported call sequences replayed on the real sub-queue, TLC trace validation',
     ref='3 (H1, controlled scheduling), 5.8, 6 C30')
 
 # deviation configs: (cfg, invariant that must be violated)
@@ -196,6 +196,131 @@ def models(ctx):
     ctx.extra["deviation_configs_violate"] = {c: inv for c, inv in DEVS}
 
 
+# ---- the sub-queue (spec/USpsc.tla) ----------------------------------------------------------------
+USPSC_DEVS = [("MC_USpsc_dev_no_recheck.cfg", "NoBreach"), ("MC_USpsc_dev_cache_before_reset.cfg", "NoBreach"),
+              ("MC_USpsc_dev_recycled_not_linked.cfg", "NoBreach"), ("MC_USpsc_witness_NoRecycle.cfg", "NoRecycle"),
+              ("MC_USpsc_dev_live_recycled.cfg", "temporal"), ("MC_USpsc_witness_NoFree.cfg", "NoFree"), ("MC_USpsc_witness_NoThreeRings.cfg", "NoThreeRings")]
+
+
+def subqueue(ctx, rng):
+    """uSWSR_Ptr_Buffer, which MPMC.tla takes as an atomic FIFO: TLC checks its ring-chain design at access grain
+    (USpsc.tla), exports one call sequence per edge of the call-grain state graph, and the real class is driven
+    along them (one thread) and by two free-running threads; T_USpsc.tla judges every call."""
+    for cfg in ["MC_USpsc_full.cfg", "MC_USpsc_seg3.cfg", "MC_USpsc_live.cfg"]:
+        r = tlc.check("MC_USpsc.tla", cfg, workers=4, timeout=900, heap="4g")
+        if not r["ok"]:
+            raise core.Infra("sub-queue model violates %s" % r["violated"])
+        ctx.add_model(r, "MC_USpsc.tla", cfg, ["AllPopped (fair)"] if "live" in cfg else ["Fifo", "NoBreach", "ChainHoldsRest", "RingsDisjoint"])
+
+    def dev(d):
+        return tlc.check("MC_USpsc.tla", d[0], workers=1, timeout=300, heap="2g")
+    with ThreadPoolExecutor(max_workers=6) as ex:
+        res = list(ex.map(dev, USPSC_DEVS))
+    for (c, inv), r in zip(USPSC_DEVS, res):
+        if inv == "temporal" and r["violated"] is not None and "Temporal property AllPopped was violated" in r["out"]:
+            r["violated"] = "temporal"
+        if r["violated"] != inv:
+            raise core.Infra("vacuity guard: %s should violate %s, got %s" % (c, inv, r["violated"]))
+        ctx.add_model(r, "MC_USpsc.tla", c, ["must violate " + inv])
+    jobs = []        # (seg, ops)
+    nedges = {}
+    for cfg, seg in [("MC_USpscSeq_export.cfg", 2)] + ([] if ctx.quick else [("MC_USpscSeq_export3.cfg", 3)]):
+        r = tlc.check("MC_USpscSeq.tla", cfg, workers=1, timeout=900, heap="4g")
+        if not r["ok"]:
+            raise core.Infra("sub-queue export violates %s" % r["violated"])
+        ctx.add_model(r, "MC_USpscSeq.tla", cfg, ["Fifo", "NoBreach", "call-grain edge export"])
+        seqs = sorted({"".join(L[0]) for L in tlc.leaves(r["out"])})
+        if len(seqs) < 5000:
+            raise core.Infra("sub-queue export produced only %d call sequences" % len(seqs))
+        nedges[cfg] = len(seqs)
+        # a sequence that is a proper prefix of another one is replayed by the longer one
+        keep = [a for a, b in zip(seqs, seqs[1:] + [""]) if not b.startswith(a)]
+        if ctx.quick:
+            rng.shuffle(keep)
+            keep = keep[:1200]
+        jobs += [(seg, k) for k in keep]
+    # the code's ring cache holds 32 rings (1-2 in the models): backlogs that release more than 32 rings, twice,
+    # and seeded long call sequences
+    for seg in (2, 3, 5):
+        n = seg * 40
+        jobs.append((seg, "U" * n + "O" * (n + 2) + "U" * n + "O" * (n // 2) + "U" * n + "O" * (2 * n)))
+    for _ in range(20 if ctx.quick else 200):
+        seg = rng.choice([2, 2, 3, 4, 7])
+        ops, bias = [], 0.5
+        for k in range(rng.randint(100, 600)):
+            if k % 50 == 0:
+                bias = rng.choice([0.2, 0.45, 0.55, 0.8])
+            ops.append("U" if rng.random() < bias else "O")
+        jobs.append((seg, "".join(ops)))
+    bins = binaries()
+    parts = [jobs[i::4] for i in range(4)]
+
+    def one(pi):
+        return core.run_probe(bins["asan"], "".join("uspsc %d %s\n" % j for j in parts[pi]) + "quit\n", build.run_env("asan"), timeout=600)
+    with ThreadPoolExecutor(max_workers=4) as ex:
+        res = list(ex.map(one, range(4)))
+    execs, cases = [], []
+    for pi, (evs, rc, err) in enumerate(res):
+        cur = None
+        got = []
+        for e in evs:
+            if e["e"] == "Error":
+                raise core.Infra("probe_mpmc: %s" % e)
+            if e["e"] == "Reset":
+                cur = [e]
+                got.append(cur)
+            elif cur is not None:
+                cur.append(e)
+        if rc != 0:
+            ctx.fail("probe_abort:rc%d" % rc, "memory error or crash in the sub-queue (one thread, call sequence)",
+                     {"job": parts[pi][len(got) - 1] if got else None, "stderr": core.san_report(err)})
+        elif len(got) != len(parts[pi]):
+            raise core.Infra("probe_mpmc uspsc ran %d of %d sequences" % (len(got), len(parts[pi])))
+        for j, ex_ in zip(parts[pi], got):
+            execs.append(ex_)
+            cases.append({"uspsc": {"seg": j[0], "calls": j[1]}})
+    # two free-running threads on one sub-queue
+    n = 1 if ctx.quick else 6
+    fruns = [("asan", 2, 30000 * n, 0), ("asan", 3, 30000 * n, 5), ("plain", 2, 300000 * n, 0), ("plain", 4, 300000 * n, 0),
+             ("plain", 2, 100000 * n, 1), ("tsan", 2, 20000 * n, 0), ("tsan", 8, 20000 * n, 3), ("plain", 2048, 300000 * n, 0)]
+
+    def free(r):
+        variant, seg, cnt, spin = r
+        env = build.run_env(variant)
+        if variant == "tsan":
+            env["TSAN_OPTIONS"] = "exitcode=0:halt_on_error=0:report_signal_unsafe=0"
+        return core.run_probe(bins[variant], "uspsc2 %d %d %d\nquit\n" % (seg, cnt, spin), env, timeout=600)
+    with ThreadPoolExecutor(max_workers=3) as ex:
+        fres = list(ex.map(free, fruns))
+    for r, (evs, rc, err) in zip(fruns, fres):
+        evs = [e for e in evs if e["e"] in ("Reset", "SRuns")]
+        if rc != 0:
+            ctx.fail("probe_abort:rc%d" % rc, "memory error or crash in the sub-queue (two free threads %s)" % (r,), {"run": r, "stderr": core.san_report(err)})
+            continue
+        if len(evs) != 2:
+            raise core.Infra("probe_mpmc uspsc2 %s produced no log: %s" % (r, err[-400:]))
+        if evs[1].get("timeout") and not evs[1].get("false_after_done"):
+            raise core.Infra("probe_mpmc uspsc2 %s: no verdict, the threads were starved for 150 s" % (r,))
+        execs.append(evs)
+        cases.append({"uspsc2": dict(zip(("variant", "seg", "n", "yield_every"), r))})
+    fails, _, info = tlc.validate_execs("T_USpsc.tla", "T_USpsc.cfg", execs, ctx.workdir, "c30sub", chunks=8, heap="3g")
+    ctx.add_validation(info, len(execs))
+    seen = set()
+    for f in fails:
+        if (f["exec"], f["sig"]) in seen:
+            continue
+        seen.add((f["exec"], f["sig"]))
+        ctx.fail(f["sig"], f["why"], {"run": cases[f["exec"]], "pos": f["pos"], "event": f["event"],
+                                      "trace": execs[f["exec"]][max(0, f["pos"] - 20):f["pos"] + 1]})
+    for c_, ex_ in zip(cases, execs):
+        ctx.case(json.dumps(c_, sort_keys=True), nontrivial=any(e["e"] == "SRuns" or (e["e"] == "SPop" and e.get("ok")) for e in ex_))
+    ctx.extra["subqueue"] = {"call_grain_edges_exported": nedges, "call_sequences_run": len(jobs), "free_two_thread_runs": len(fruns),
+                             "deviation_configs_violate": {c: inv for c, inv in USPSC_DEVS}}
+    if len(execs) > 3:
+        ctx.sample({"subqueue": cases[0], "trace": execs[0][:12]})
+    return len(jobs), len(fruns)
+
+
 def judge(ctx, name, execs, cases):
     fails, labels, info = tlc.validate_execs("T_MPMC.tla", "T_MPMC.cfg", execs, ctx.workdir, name, chunks=8, heap="3g")
     ctx.add_validation(info, len(execs))
@@ -305,12 +430,18 @@ def run(ctx):
     ctx.extra["tsan_reports_not_judged"] = tsan
     ctx.tick("validate_free")
 
+    # ---- the sub-queue on its own -----------------------------------------------------------------
+    nsub, nsubfree = subqueue(ctx, rng)
+    ctx.tick("subqueue")
+
     ctx.rule = ("TLC explores every interleaving of the atomic steps of push/pop for the bounded configuration; %d of %d "
                 "edge-covering schedules of the small configuration (all %d edges in the thorough tier) and %d simulated "
                 "schedules of a larger one are executed on the real queue one atomic step at a time, each step judged by the "
-                "TLA+ monitor; %d free-running runs (2-16 threads) judged on their pop logs. distinct = distinct step "
+                "TLA+ monitor; %d free-running runs (2-16 threads) judged on their pop logs; the sub-queue (uSWSR_Ptr_Buffer) "
+                "model-checked at access grain (USpsc.tla) and the real class driven along %d TLC-exported / seeded call "
+                "sequences and %d two-thread runs, every call judged by T_USpsc. distinct = distinct step "
                 "sequences / thread mixes with at least one successful pop"
-                % (len(jobs_plain) + len(sub), len(walks), nedges, len(sims), len(runs)))
+                % (len(jobs_plain) + len(sub), len(walks), nedges, len(sims), len(runs), nsub, nsubfree))
     if done:
         i = done[len(done) // 2]
         ctx.sample({"cfg": alljobs[i][0], "schedule": alljobs[i][1], "trace": execs[i][:14]})
